@@ -238,7 +238,9 @@ pub fn run(args: &Args, rep: &mut Report) {
             break;
         }
         let fam = fams[((i + args.shard) % fams.len() as u64) as usize];
-        let spec = CaseSpec { prop: prop.clone(), family: fam, seed: args.seed, shard: args.shard, case: i, steps, crash_plan: None, target_pick: 0 };
+        // thorough: short and long cases alternate (many cases per time box, and deep ones)
+        let steps_i = if i % 2 == 0 { steps.min(1500) } else { steps };
+        let spec = CaseSpec { prop: prop.clone(), family: fam, seed: args.seed, shard: args.shard, case: i, steps: steps_i, crash_plan: None, target_pick: 0 };
         match run_case(&pool, &spec) {
             Ok((res, desc)) => {
                 if let Some(t) = res.suffix_timeouts {
